@@ -278,6 +278,19 @@ func (fr *Frame) execInstr(ins ssa.Instruction) {
 				fr.vc.assume(tNot(tSelect(fr.cur.Get(h, arraySort(SInt, SBool)), ref)))
 			}
 		}
+		if stt, ok := pt.Underlying().(*types.Struct); ok {
+			// ... and neither are the mutexes embedded by value in a struct that has just been created
+			for i := 0; i < stt.NumFields(); i++ {
+				n, ok := types.Unalias(stt.Field(i).Type()).(*types.Named)
+				if !ok || (qualName(n) != "sync.Mutex" && qualName(n) != "sync.RWMutex") {
+					continue
+				}
+				lref := fr.lockRef(te.FieldLoc(pt, i, ref))
+				for _, h := range []string{"ghost_LockW", "ghost_LockR"} {
+					fr.vc.assume(tNot(tSelect(fr.cur.Get(h, arraySort(SInt, SBool)), lref)))
+				}
+			}
+		}
 	case *ssa.FieldAddr:
 		st := derefType(ins.X.Type())
 		base := fr.objBase(ins.X)
